@@ -526,7 +526,8 @@ class C18(Check):
                  "layouts and mutations")
     rule = ("case = (expression string, intended tree or none, universe); all trees with <= N nodes over a 35-atom "
             "alphabet (<= 3 nodes) and a 3/4-atom alphabet (deeper), each printed in the layouts min / parens / glued / "
-            "ws / tabs / requote / random; token- and character-level mutations without intended tree; fixed list of "
+            "ws / tabs / requote / random; token- and character-level mutations without intended tree; systematic escape family (quoting style x key/pattern x "
+            "character after a backslash); random token soup; fixed list of "
             "boundary strings; non-trivial = string with an operator, parenthesis, quote or escape, or rejected; "
             "distinct by (string, universe)")
     assumptions = [
@@ -606,6 +607,16 @@ class C18(Check):
                     seen.add(s)
                     self._count("mut:" + kind)
                     yield {"s": s, "exp": None, "u": "mut", "kind": "mut:" + kind}
+        # systematic escape family: every quoting style x {key, pattern} x every character class after a
+        # backslash (wrapping quote, other quote, backslash, letter, digit, space, @, parentheses, newline,
+        # end of input), at the start / middle / end of the quoted text, alone and inside a compound expression;
+        # plus the same characters after a backslash in unquoted position.  The model decides validity.
+        for s in escape_family():
+            if s in seen:
+                continue
+            seen.add(s)
+            self._count("escape")
+            yield {"s": s, "exp": None, "u": "mut", "kind": "escape"}
         # random token soup: no structure assumed at all
         soup = ["a", "b*", "and", "or", "not", " ", "  ", "\t", "(", ")", "@", "'", "\"", "\\", ":", "/", "i", "@id_glob@", "@id_re/i@",
                 "@data_glob:", "@data_literal/:", "k", "@x", "'a b'", "\"q\\\"\"", "\x85", "\u2003", "*", "[", "{9}", "\\\\"]
@@ -801,6 +812,27 @@ class C18(Check):
         if badm:
             fails.append(({"_extra": True, "what": "Matcher.matches differs from match", "cases": badm[:5]},
                           ["matcher_equals_match"], None, None))
+
+
+def escape_family():
+    follow = ["'", '"', "\\", "n", "0", " ", "@", "(", ")", "\n", "\t", "i", ":", "/", None]   # None = end of input
+    key_hosts = [("@data_literal:", "@v"), ("@data_glob/i:", "@v"), ("@data_re/:", "@'v'")]
+    pat_hosts = [("@data_literal:k@", ""), ("@id_re@", ""), ("@id_glob/i@", ""), ("", ""), ("@data_glob:'k'@", "")]
+    for hosts in (key_hosts, pat_hosts):
+        for (before, after) in hosts:
+            for q in ("'", '"', ""):
+                for pre in ("", "x"):
+                    for post in ("", "y"):
+                        for ch in follow:
+                            if ch is None:
+                                cores = [before + q + pre + "\\"]
+                            else:
+                                core = before + q + pre + "\\" + ch + post + q + after
+                                cores = [core, before + q + pre + "\\" + ch + post]      # also unterminated
+                            for core in cores:
+                                yield core
+                                yield "a or not (" + core + " and b)"
+                                yield core + " or b"
 
 
 def has_bare_keyword(s):
